@@ -219,6 +219,62 @@ def inject_cleanup_fault(world, key, act_index, kind="Exception"):
     return w
 
 
+def inject_step_outcome(world, key, kind):
+    w = dict(world)
+    script = dict(world["script"])
+    ent = copy.deepcopy(script.get(key) or {"acts": [], "out": {"kind": "ok"}})
+    ent["out"] = {"assert": {"kind": "assert", "msg": "injected"}, "exc": {"kind": "exc", "cls": "RuntimeError", "msg": "injected"},
+                  "notimpl": {"kind": "notimpl", "msg": "injected"}, "kbi": {"kind": "kbi"}, "skip": {"kind": "skip"}}[kind]
+    script[key] = ent
+    w["script"] = script
+    return w
+
+
+def enumerate_step_faults(prop, world, root, stats, oracle_fns, cap=12, post=None):
+    """Every step call-site of the all-pass variant of this world x every non-pass outcome kind:
+    the first non-pass is placed at EVERY position (per sampled world)."""
+    out = []
+    w0 = dict(world)
+    sc = {}
+    for k, ent in world["script"].items():
+        if k.startswith("step|") and ent["out"]["kind"] != "ok":
+            ent = dict(ent)
+            ent["out"] = {"kind": "ok"}
+        sc[k] = ent
+    w0["script"] = sc
+    w0["autoretry"] = {}
+    h0 = R.run_world(w0, root, post=post)
+    if h0.get("escaped") or h0.get("config_error"):
+        return out, R.history_digest(h0)
+    if stats is not None:
+        stats.note_run(w0, h0)
+    sites = [e["key"] for e in h0["events"] if e["kind"] == "step" and e["depth"] == 0]
+    seen = []
+    for k in sites:
+        if k not in seen:
+            seen.append(k)
+    if len(seen) > cap:
+        seen = random.Random(world["seed"] ^ 0x57E9).sample(seen, cap)
+    dig = R.history_digest(h0)
+    for key in seen:
+        for kind in ("assert", "exc", "notimpl", "kbi", "skip"):
+            wk = inject_step_outcome(w0, key, kind)
+            hk = R.run_world(wk, root, post=post)
+            pk = M.Acceptor(wk, hk).run()
+            if stats is not None:
+                stats.note_run(wk, hk)
+                stats.probe("enumerated-step-outcomes")
+            dig += R.history_digest(hk)
+            for fn in oracle_fns:
+                for v in fn(wk, hk, pk):
+                    if v["prop"] == prop:
+                        out.append((wk, v, None))
+            esc = O.escaped_violation(hk)
+            if esc is not None and esc["prop"] == prop:
+                out.append((wk, esc, None))
+    return out, dig
+
+
 def c12_eval_world(world, root, stats, only=None):
     """only: list of injections [[key, kind], ...] (replay) or None (enumerate)."""
     out = []
@@ -422,12 +478,28 @@ _reg("C01", _e, _r, "exploration",
      "generated from the seed; verdict compared with the model's reading of the REALISED events; " + NONTRIVIAL,
      {"quick": 1500, "thorough": 40000})
 
-_e, _r = make_runsim("C02", [O.check_C02], prof_C02, c02_probe)
+_e02, _r = make_runsim("C02", [O.check_C02], prof_C02, c02_probe)
+
+
+def c02_evaluate(seed, hashseed, root, stats):
+    out, dig = _e02(seed, hashseed, root, stats)
+    if (seed // 16) % 40 == 0:
+        world = W.gen_world(seed, profile=prof_C02)
+        world["hashseed"] = hashseed
+        o2, d2 = enumerate_step_faults("C02", world, root, stats, [O.check_C02])
+        out = list(out) + o2
+        dig = hashlib.sha1((dig + d2).encode("ascii")).hexdigest()
+    return out, dig
+
+
+_e = c02_evaluate
 _reg("C02", _e, _r, "exploration",
      "worlds with 0..2 background levels, plain scenarios and outline rows, outcome sequences over "
      "{pass, assert, exception, not-implemented, undefined, skip-scenario, KeyboardInterrupt, converter error}, "
-     "@wip, dry-run, auto-retry histories; step-call log and every step status checked; " + NONTRIVIAL,
-     {"quick": 2200, "thorough": 40000})
+     "@wip, dry-run, auto-retry histories, async steps under virtual time; for every 40th world the first non-pass is "
+     "placed at EVERY step call-site x {assert, exception, not-implemented, interrupt, skip}; step-call log and every "
+     "step status checked; " + NONTRIVIAL,
+     {"quick": 1400, "thorough": 30000})
 
 _e, _r = make_runsim("C03", [O.check_C03], prof_C03, c03_probe)
 _reg("C03", _e, _r, "exploration",
@@ -695,13 +767,28 @@ _reg("C16", _e, _r, "exploration",
      "expat; test cases vs census, counters vs entries, failure/error entry naming the step or hook; " + NONTRIVIAL,
      {"quick": 2200, "thorough": 40000})
 
-_e, _r = make_runsim_post("C18", [A.check_C18], prof_C18, None, c18_probe, child_every=211)
+_e18, _r = make_runsim_post("C18", [A.check_C18], prof_C18, None, c18_probe, child_every=211)
+
+
+def c18_evaluate(seed, hashseed, root, stats):
+    out, dig = _e18(seed, hashseed, root, stats)
+    if (seed // 16) % 40 == 0:
+        world = W.gen_world(seed, profile=prof_C18)
+        world["hashseed"] = hashseed
+        o2, d2 = enumerate_step_faults("C18", world, root, stats, [A.check_C18])
+        out = list(out) + o2
+        dig = hashlib.sha1((dig + d2).encode("ascii")).hexdigest()
+    return out, dig
+
+
+_e = c18_evaluate
 _reg("C18", _e, _r, "exploration",
      "steps and step hooks print unique markers to stdout/stderr/logging under all 8 capture switch combinations, "
      "all outcome classes incl. interrupt and step-hook errors, nested execute_steps, several scenarios in sequence; "
      "simulator-owned TTY objects record every chunk with the active callback; probes of sys.stdout/sys.stderr identity "
-     "and root logger state at every callback; " + NONTRIVIAL,
-     {"quick": 2200, "thorough": 40000})
+     "and root logger state at every callback; for every 40th world every step call-site x {assert, exception, "
+     "not-implemented, interrupt, skip} is enumerated; " + NONTRIVIAL,
+     {"quick": 1400, "thorough": 30000})
 
 
 # --- C17: two-run history ---------------------------------------------------
